@@ -520,30 +520,26 @@ Theorem function_redeclared : forall fmt cw fuel st f body o, alookup str_eqb (l
 Proof. exact Proofs.BstCommands.function_redeclared. Qed.
 Print Assumptions function_redeclared.
 
-(* INTEGERS / STRINGS bind each name to a new global holding 0 / "" ... *)
-Theorem integers_declares : forall fmt cw fuel st names,
-  run_command fmt cw fuel st (Cmd nm_integers [map IId names]) = Ok (set_vars st (bind_all (OInt (VInt 0)) names (st_vars st))).
+(* INTEGERS / STRINGS append a new global holding 0 / "" for each (fresh) name ... *)
+Theorem integers_declares : forall fmt cw fuel st names, fresh names (st_vars st) ->
+  run_command fmt cw fuel st (Cmd nm_integers [map IId names]) =
+  Ok (set_vars st (st_vars st ++ map (fun n => (lower n, OInt (VInt 0))) names)).
 Proof. exact Proofs.BstCommands.integers_declares. Qed.
 Print Assumptions integers_declares.
 
-Theorem strings_declares : forall fmt cw fuel st names,
-  run_command fmt cw fuel st (Cmd nm_strings [map IId names]) = Ok (set_vars st (bind_all (OStr (VStr [])) names (st_vars st))).
+Theorem strings_declares : forall fmt cw fuel st names, fresh names (st_vars st) ->
+  run_command fmt cw fuel st (Cmd nm_strings [map IId names]) =
+  Ok (set_vars st (st_vars st ++ map (fun n => (lower n, OStr (VStr []))) names)).
 Proof. exact Proofs.BstCommands.strings_declares. Qed.
 Print Assumptions strings_declares.
 
-(* ... but, unlike ENTRY and FUNCTION (and unlike BibTeX), WITHOUT the "already declared" check: the documented
-   behaviour "re-declaring a name is an error" is refuted by the faithful model (finding C03-F2):
-   INTEGERS {swap$} silently turns the built-in swap$ into an integer variable *)
-Theorem integers_redeclaration_is_error_refuted : exists fmt cw st names o,
-  (exists n, In n names /\ vlookup n (st_vars st) = Some o) /\
-  exists st', run_command fmt cw 0 st (Cmd nm_integers [map IId names]) = Ok st' /\
-              vlookup (s2l "swap$") (st_vars st') = Some (OInt (VInt 0)).
-Proof.
-  exists (fun _ _ => Ok []), (fun _ => 0%Z), (initial_state [] []), [s2l "swap$"], (OBuiltin B_swap). split.
-  - exists (s2l "swap$"). split; [left; reflexivity|vm_compute; reflexivity].
-  - eexists. split; vm_compute; reflexivity.
-Qed.
-Print Assumptions integers_redeclaration_is_error_refuted.
+(* ... and re-declaring a bound name (a variable, a function, a built-in) is the "already declared" error, as for ENTRY
+   and FUNCTION and as in BibTeX (this was refuted before fix C03-F2: INTEGERS {swap$} silently replaced the built-in) *)
+Theorem integers_redeclaration_is_error : forall fmt cw fuel st n r o, alookup str_eqb (lower n) (st_vars st) = Some o ->
+  run_command fmt cw fuel st (Cmd nm_integers [IId n :: r]) = PyErr E_BST (-1) /\
+  run_command fmt cw fuel st (Cmd nm_strings [IId n :: r]) = PyErr E_BST (-1).
+Proof. exact Proofs.BstCommands.integers_redeclaration_is_error. Qed.
+Print Assumptions integers_redeclaration_is_error.
 
 Theorem macro_declares : forall fmt cw fuel st name value,
   run_command fmt cw fuel st (Cmd nm_macro [[IId name]; [IStr value]]) =
